@@ -97,6 +97,15 @@ func gen(g *vh.Gen) {
 			{"a:1:90:" + s + ",s:1:90,a:2:91:" + s + ",a:1:92:" + s, map[int][]int{1: {90, 92}, 2: {91}}},
 		}
 	}
+	for i := 0; i < g.N(6, 20); i++ {
+		g.Emit("burst", []string{"file", "mem"}[i%2], strconv.Itoa(g.Intn(1000000)), strconv.Itoa(g.N(250, 1500)))
+	}
+	// free-running stress on one lock bucket, judged by the history checks of runStress and (burst) by the
+	// linearizability oracle; no -race needed (3-5 s in the quick tier)
+	for i := 0; i < g.N(8, 16); i++ {
+		store := []string{"file", "mem"}[i%2]
+		g.Emit("stress", store, "0", "0", strconv.Itoa(g.Intn(1000000)), "4", strconv.Itoa(g.N(300, 800)))
+	}
 	// scenarios that are always present
 	g.Emit("mem", "0", "1", "-", "a:1:1:100,r:1:1")
 	g.Emit("mem", "0", "1", "-", "a:1:1:100,p:1")
